@@ -388,6 +388,8 @@ def canon_exception(exc, env):
     if isinstance(exc, errors.DuplicateModules):
         d["duplicates"] = [getattr(getattr(x, "record", None), "id", repr(type(x))) for x in exc.duplicates]
         d["details"] = exc.details
+    elif isinstance(exc, errors.UnusedModules):
+        d["remaining"] = [getattr(getattr(x, "record", None), "id", "?") for x in exc.remaining]
     elif isinstance(exc, errors.MissingModule):
         d["start_overhang"] = str(exc.start_overhang)
         d["details"] = exc.details
@@ -421,6 +423,12 @@ def do_assemble(env, op, fault):
     try:
         with warnings.catch_warnings(record=True) as wlist:
             warnings.simplefilter("always")
+            if op.get("warnings") == "error":
+                # the caller turned moclo's assembly warnings into errors (documented usage):
+                # UnusedModules is then *raised* from inside the mutate/restore window
+                from moclo import errors as _errors
+
+                warnings.simplefilter("error", category=_errors.AssemblyWarning)
             try:
                 if linj is not None:
                     with linj:
@@ -660,7 +668,7 @@ def _has_malformed(cat, rec_ids):
 
 
 def reference(cat, edits, op, strip=False):
-    key = kernel.canon([cat["pool"], cat.get("refs"), [w for w in cat["wrappers"] if w["h"] in [op["vec"]] + list(op["mods"])], edits, {k: op.get(k) for k in ("vec", "mods", "out_id", "out_name")}, strip])
+    key = kernel.canon([cat["pool"], cat.get("refs"), [w for w in cat["wrappers"] if w["h"] in [op["vec"]] + list(op["mods"])], edits, {k: op.get(k) for k in ("vec", "mods", "out_id", "out_name", "warnings")}, strip])
     memo = W.setdefault("ref_memo", {})
     hk = h64(key)
     if hk in memo:
@@ -750,6 +758,8 @@ def execute(case):
                 probes["two-wrappers-one-record"] += 1
             if out.get("warnings"):
                 probes["unused-modules-warning"] += 1
+            if kind == "UnusedModules":
+                probes["unused-modules-raised-as-error"] += 1
             if kind == "MissingModule":
                 j = sum(1 for t in (info.get("trace") or []) if t.endswith("target_sequence")) if info else None
                 probes["missing-module"] += 1
@@ -1045,11 +1055,14 @@ def _gen_call(g, sc, i):
     elif x < 0.60 and sc["extras"]:
         mods = g.sample(chain + sc["extras"], g.randint(1, len(chain)))
     g.shuffle(mods)
-    return {"op": "assemble", "vec": vec, "mods": mods, "out_id": "prod%d" % i, "out_name": "prod%d" % i}
+    call = {"op": "assemble", "vec": vec, "mods": mods, "out_id": "prod%d" % i, "out_name": "prod%d" % i}
+    if g.random() < 0.12:
+        call["warnings"] = "error"
+    return call
 
 
 def dry_run(case, op_index):
-    key = h64(kernel.canon([case["catalogue"]["pool"], case["catalogue"]["wrappers"], [o for o in case["ops"][:op_index] if o["op"].startswith(("edit", "repair"))], {k: case["ops"][op_index].get(k) for k in ("vec", "mods")}]))
+    key = h64(kernel.canon([case["catalogue"]["pool"], case["catalogue"]["wrappers"], [o for o in case["ops"][:op_index] if o["op"].startswith(("edit", "repair"))], {k: case["ops"][op_index].get(k) for k in ("vec", "mods", "warnings")}]))
     memo = W["dry_memo"]
     if key not in memo:
         memo[key] = kernel.fork_call(_dry_child, (case, op_index), timeout=60, what="dry run")
@@ -1232,7 +1245,7 @@ def catalogue_summary(case):
 
 
 EXPECTED_PROBES = {
-    "C07": ["assemble-with-duplicate-reference-in-one-record", "assemble-with-malformed-citation", "probe:target_sequence", "edit:citation", "assemble-with-citations", "refinement-after-failure", "refinement-after-injected-fault", "same-instance-twice", "missing-module", "unused-modules-warning", "stale-wrapper-used", "edit:edit_seq", "rewrap"],
+    "C07": ["unused-modules-raised-as-error", "assemble-with-duplicate-reference-in-one-record", "assemble-with-malformed-citation", "probe:target_sequence", "edit:citation", "assemble-with-citations", "refinement-after-failure", "refinement-after-injected-fault", "same-instance-twice", "missing-module", "unused-modules-warning", "stale-wrapper-used", "edit:edit_seq", "rewrap"],
     "C10": ["product-carries-citation", "product-with-cited-inputs"],
 }
 
